@@ -465,6 +465,7 @@ def check_property(prop, tier, seed, only=None):
         samples = []
         agg = {'symex_s': 0.0, 'solver_s': 0.0, 'sat_calls': 0, 'vccs': 0, 'vccs_remaining': 0, 'max_vars': 0, 'max_clauses': 0, 'steps': 0}
         per_h = []
+        to_replay = []
         for h in hs:
             r = byname[h['name']]
             entry = {'harness': h['name'], 'file': h['file'] + '_h.rs', 'status': r['status'], 'wall_s': r.get('wall_s'), 'peak_rss_gb': r.get('peak_gb'),
@@ -535,12 +536,27 @@ def check_property(prop, tier, seed, only=None):
             if prop == 'DEV':
                 violations.append((h['name'], unknown, None, 'DEV mode: no replay'))
                 continue
+            to_replay.append((h, unknown, entry))
+        # replays run in parallel (each is a Kani run with concrete playback + two native builds)
+        rlock = threading.Lock()
+
+        def do_replay(h, unknown, entry):
             ok, path, detail = make_replay(h, unknown, scratch, pool, logdir)
-            entry['replay'] = {'reproduced': ok, 'path': path, 'detail': detail[:400]}
-            if ok:
-                violations.append((h['name'], unknown, path, detail))
-            else:
-                inconclusive.append((h['name'], 'counterexample did not reproduce natively (%s): %s' % (detail[:200], '; '.join(unknown)[:300])))
+            with rlock:
+                entry['replay'] = {'reproduced': ok, 'path': path, 'detail': detail[:400]}
+                if ok:
+                    violations.append((h['name'], unknown, path, detail))
+                else:
+                    inconclusive.append((h['name'], 'counterexample did not reproduce natively (%s): %s' % (detail[:200], '; '.join(unknown)[:300])))
+        ths = []
+        for (h, unknown, entry) in to_replay:
+            t = threading.Thread(target=do_replay, args=(h, unknown, entry), daemon=True)
+            t.start()
+            ths.append(t)
+            while sum(1 for x in ths if x.is_alive()) >= 6:
+                time.sleep(1.0)
+        for t in ths:
+            t.join()
         for (k, hn, d) in known_hits:
             pass
         seen = set()
